@@ -467,6 +467,8 @@ def deriv_check(ctx, repo, c, construct_prefix):
 
 def run(ctx):
     repo = ctx.repo
+    from . import cachecoh
+    cachecoh.rule(ctx, "C04.stale", ("aspire.transforms",), "the reported log-Jacobian is that of an earlier fit, not of the map now applied")
     classes = leaf_classes(repo)
     comp = repo.cls(f"{TR}:CompositeTransform")
     flowpre = repo.cls(f"{TR}:FlowPreconditioningTransform")
